@@ -12,7 +12,7 @@ def build_and_run(cpp, out_dir, sources=('concurrent/*.cpp', 'new.cpp'), args=()
     srcs = []
     for pat in sources:
         srcs += sorted(glob.glob(os.path.join(cxx2c.REPO, 'src/babylon', pat)))
-    cmd = ['g++', '-std=gnu++20', '-O1', '-DNDEBUG', '-fno-access-control', '-I' + cxx2c.REPO + '/src', '-isystem', '/root/miniconda/include'] + list(flags) + [cpp] + srcs + LINK + ['-o', exe]
+    cmd = ['g++', '-std=gnu++20', '-O1', '-DNDEBUG', '-fno-access-control', '-I' + cxx2c.REPO + '/src', '-isystem', '/root/miniconda/include'] + [cpp] + srcs + [f for f in flags if f.startswith('-l')] + LINK + [f for f in flags if not f.startswith('-l')] + ['-o', exe]
     p = subprocess.run(cmd, stdout=subprocess.PIPE, stderr=subprocess.STDOUT, text=True, timeout=900)
     if p.returncode != 0:
         return None, 'replay program does not build:\n' + p.stdout[-3000:]
